@@ -56,6 +56,35 @@ package expand
 //@     op != syntax.Leq && op != syntax.Geq && op != syntax.And && op != syntax.Or && op != syntax.Xor && op != syntax.Shl &&
 //@     op != syntax.Shr && op != syntax.Comma, err != nil)
 
+// ---- C20: base#n literals with a base above 36 (bash's digit set 0-9 a-z A-Z @ _). bashDigit is the value of a digit,
+// -1 for a byte outside the set; hornerLB(s, base, k) is the value of the first k digits (uninterpreted, with its
+// defining equations assumed where used). The result is that value for a string of digits below the base, and 0
+// as soon as one byte is not such a digit. (Wrap-around of huge literals is not modelled: mode math.) ----
+//@ spec bashDigit(c byte) int64 = ite(c >= '0' && c <= '9', int64(c) - 48, ite(c >= 'a' && c <= 'z', int64(c) - 97 + 10,
+//@     ite(c >= 'A' && c <= 'Z', int64(c) - 65 + 36, ite(c == '@', int64(62), ite(c == '_', int64(63), int64(-1))))))
+//@ spec hornerLB(s string, base int64, k int) int64
+
+//@ func atoiLargeBase
+//@ props C20
+//@ mode math
+//@ assume [horner-zero] hornerLB(s, base, 0) == 0
+//@ assume [horner-step] forall(k, trig(s[k], implies(0 <= k && k < len(s), hornerLB(s, base, k+1) == hornerLB(s, base, k) * base + bashDigit(s[k]))))
+//@ ensures [value] implies(all(k, 0, len(s), bashDigit(s[k]) >= 0 && bashDigit(s[k]) < base), result == hornerLB(s, base, len(s)))
+//@ ensures [bad-digit-is-zero] implies(any(k, 0, len(s), bashDigit(s[k]) < 0 || bashDigit(s[k]) >= base), result == 0)
+//@ loop 1 invariant [horner] 0 <= i && i <= len(s) && n == hornerLB(s, base, i) && all(k, 0, len(s), implies(k < i, bashDigit(s[k]) >= 0 && bashDigit(s[k]) < base))
+//@ stateless
+
+// atoi: the literal forms of bash arithmetic. After trimming white space and an optional sign: 0x/0X means base 16, a
+// leading 0 base 8, base#digits a base from 2 to 64 (anything else is 0), otherwise decimal; digits are converted by
+// strconv.ParseInt up to base 36 and by atoiLargeBase above; a leading minus negates.
+//@ spec atoiBody(v string) string = ite(strHasPrefix(v, "+") || strHasPrefix(v, "-"), ssub(v, 1, len(v)), v)
+//@ spec atoiBase(b string) int = int(pintVal(b, 10, 8))
+//@ spec atoiMag(v string) int64 = ite(strHasPrefix(v, "0x") || strHasPrefix(v, "0X"), pintVal(ssub(v, 2, len(v)), 16, 64),
+//@     ite(strHasPrefix(v, "0"), pintVal(ssub(v, 1, len(v)), 8, 64),
+//@     ite(!cutFound(v, "#"), pintVal(v, 10, 64),
+//@     ite(!pintOK(cutBefore(v, "#"), 10, 8) || atoiBase(cutBefore(v, "#")) < 2 || atoiBase(cutBefore(v, "#")) > 64, int64(0),
+//@     ite(atoiBase(cutBefore(v, "#")) > 36, atoiLargeBase(cutAfter(v, "#"), int64(atoiBase(cutBefore(v, "#")))), pintVal(cutAfter(v, "#"), atoiBase(cutBefore(v, "#")), 64))))))
+
 // ---- C34: environment lists ----
 
 // The comparator of listEnviron.Get. Its preconditions are the values Get assigns to the captured variables
@@ -196,11 +225,11 @@ package expand
 //@ modifies heap, arClock, arRhsTime, arRhs, arRhsErr
 
 //@ func atoi
-//@ trusted "names the result: atoi is a function of its argument"
-//@ ensures result == atoiSpec(s)
-//@ pure
+//@ props C20
+//@ ensures [literal-forms] result == ite(!strHasPrefix(trimmedSpace(s), "+") && strHasPrefix(trimmedSpace(s), "-"), -atoiMag(atoiBody(trimmedSpace(s))), atoiMag(atoiBody(trimmedSpace(s))))
+//@ stateless
 
-//@ spec assgnOld() int64 = atoiSpec(arGetStr)
+//@ spec assgnOld() int64 = atoi(arGetStr)
 //@ spec assgnArg() int64 = int64(arRhs)
 
 //@ func Config.assgnArit
